@@ -301,12 +301,20 @@ CHECK_DEADLOCK FALSE
     return "mc_mailbox", res, dict(users=3, MaxOps=ops, MaxWire=wire)
 
 
-def tlc_mc_lockfile(ctx, which, procs):
+LAYOUTS = {   # name: ({user: (process, byte)}, ProcOf / Bytes definitions of the trace and MC modules)
+    "same": ({"u1": ("P", 0), "u2": ("Q", 0)}, "ProcTwo", "BytesSame"),
+    "mixed": ({"u1": ("P", 0), "u2": ("Q", 1)}, "ProcTwo", "BytesMixed"),
+    "multi": ({"u1": ("P", 0), "u2": ("P", 1), "u3": ("Q", 0)}, "ProcMulti", "BytesMulti"),
+}
+
+
+def tlc_mc_lockfile(ctx, procof, which, users):
     wd = ctx.workdir()
     T.write_cfg(wd, "mc.cfg", f"""SPECIFICATION LSpec
-CONSTANTS Procs = {{{", ".join('"p%d"' % i for i in range(1, procs + 1))}}}
+CONSTANTS Users = {{{", ".join('"u%d"' % i for i in range(1, users + 1))}}}
           N = 2
           None = None
+          ProcOf <- {procof}
           Bytes <- {which}
 INVARIANTS MutualExclusion OwnerAgrees ValidCounters Chain ZeroOnlyFirst
 CHECK_DEADLOCK FALSE
@@ -314,19 +322,19 @@ CHECK_DEADLOCK FALSE
     res = T.require_clean(T.run(wd, "MC_LockFile", "mc.cfg", workers=4, timeout=1500), "MC_LockFile")
     if not res.ok:
         raise T.MachineryError("LockFile.tla violates its own invariants:\n" + res.counterexample())
-    return "mc_lockfile_" + which, res, dict(procs=procs, N=2)
+    return "mc_lockfile_" + which, res, dict(users=users, N=2, procs=procof)
 
 
-def tlc_schedules(ctx, same, cycles, maxfail, pre=False, maxexc=1):
+def tlc_schedules(ctx, layout, cycles, maxfail, pre=False, maxexc=1, atomic=False):
     wd = ctx.workdir()
     T.write_cfg(wd, "s.cfg", f"""SPECIFICATION SSpec
-CONSTANTS Procs = {{"p1", "p2"}}
+CONSTANTS Layout = "{layout}"
           Cycles = {cycles}
           MaxFail = {maxfail}
-          Same = {"TRUE" if same else "FALSE"}
           Pre = {"TRUE" if pre else "FALSE"}
           Modes = {{"ok", "raise", "cancel"}}
           MaxExc = {maxexc}
+          Atomic = {"TRUE" if atomic else "FALSE"}
 INVARIANT Emit
 CHECK_DEADLOCK FALSE
 """)
@@ -334,8 +342,9 @@ CHECK_DEADLOCK FALSE
     recs = sorted(T.printed_records(res, "SCHEDULE"), key=lambda r: repr(r[1]))
     if not recs:
         raise T.MachineryError("no schedules enumerated")
-    return ("schedules_same" if same else "schedules_mixed") + ("_pre" if pre else ""), res, \
-        [dict(same=same, window=r[0], schedule=r[1], pre=[6, 7] if pre else []) for r in recs]
+    return "schedules_" + layout + ("_pre" if pre else ""), res, \
+        [dict(layout=layout, same=layout == "same", window=r[0], schedule=r[1],
+              pre=[6, 7] if pre else []) for r in recs]
 
 
 # ---- cross-process replay -----------------------------------------------------------------
@@ -365,13 +374,13 @@ def replay_schedules(ctx, scheds):
     try:
         for k, sc in enumerate(scheds):
             sc["nmsgs"] = (1, 2, 1, 0)[k % 4]
-            bytes_of = {"p1": 0, "p2": 0 if sc["same"] else 1}
+            layout = LAYOUTS[sc["layout"]][0]
             path = os.path.join(d, "lock")
             if sc.get("pre"):
                 with open(path, "wb") as f:
                     f.write(bytes(sc["pre"]))
                 sc["nmsgs"] = 2
-            ev = lockworker.replay(core.REPO, path, sc["schedule"], bytes_of, sc["nmsgs"], pool=pool)
+            ev = lockworker.replay(core.REPO, path, sc["schedule"], layout, sc["nmsgs"], pool=pool)
             traces.append(dict(pre=sc.get("pre", []), ev=[{k2: v for k2, v in e.items() if k2 != "obs"} for e in ev]))
     finally:
         for w in pool.values():
@@ -380,13 +389,15 @@ def replay_schedules(ctx, scheds):
     return traces
 
 
-def validate_lock(ctx, traces, same):
+def validate_lock(ctx, traces, layout):
+    users, procof, which = LAYOUTS[layout]
     wd = ctx.workdir()
     T.write_cfg(wd, "t.cfg", f"""SPECIFICATION TSpec
-CONSTANTS Procs = {{"p1", "p2"}}
+CONSTANTS Users = {{{", ".join('"%s"' % u for u in sorted(users))}}}
           N = 2
           None = None
-          Bytes <- {"BytesSame" if same else "BytesMixed"}
+          ProcOf <- {procof}
+          Bytes <- {which}
 CONSTRAINT Progress
 POSTCONDITION Post
 CHECK_DEADLOCK FALSE
@@ -423,39 +434,46 @@ def judge_cross(ctx, sc, tr, result):
     facts = window_facts(sc["schedule"], sc.get("pre"))
     contended = any(e["a"] == "try" and e.get("ok") is False for e in tr["ev"])
     exits = {s.get("mode") or "ok" for s in sc["schedule"] if s["a"] == "read"}
-    ctx.evaluated(("x", sc["same"], sc["nmsgs"], bool(sc.get("pre")), repr(sc["schedule"])),
+    ctx.evaluated(("x", sc["layout"], sc["nmsgs"], bool(sc.get("pre")), repr(sc["schedule"])),
                   nontrivial=contended or bool(facts["window_acts"]) or bool(exits - {"ok"}))
     complete = length >= len(sc["schedule"])
     if matched == length and complete and not isinstance(inv, str):
         return
     bad = tr["ev"][matched] if matched < length else None
-    case = dict(part="cross-process", same=sc["same"], nmsgs=sc["nmsgs"], schedule=sc["schedule"],
+    case = dict(part="cross-process", layout=sc["layout"], same=sc["same"], nmsgs=sc["nmsgs"],
+                schedule=sc["schedule"],
                 pre=sc.get("pre", []), exit_modes=sorted(exits),
                 rejected_hold_ends_by=(bad or {}).get("mode", ""),
                 write_back_skipped=bool((bad or {}).get("skipped")),
                 window=sc["window"], rejected_at=matched, rejected_event=bad,
                 events=tr["ev"][:matched + 1], **facts)
-    steps = " ".join(f"{s['p']}.{s['a']}" + (f"({s['mode']})" if s.get("mode") else "")
+    steps = " ".join(f"{s.get('u') or s['p']}.{s['a']}" + (f"({s['mode']})" if s.get("mode") else "")
                      for s in sc["schedule"])
-    ctx.case_failed(case, f"cross-process: schedule [{steps}] (same terminal: {sc['same']}): step "
+    ctx.case_failed(case, f"cross-process: schedule [{steps}] (layout {sc['layout']}): step "
                           f"{matched} leaves LockFile.tla: {bad}")
 
 
 def run(ctx):
     from concurrent.futures import ThreadPoolExecutor
     quick = ctx.quick
-    # schedules: (same terminal, cycles, failing lock attempts, existing file, exceptional exits)
+    # schedules: (layout, cycles, failing lock attempts, existing file, exceptional exits, atomic)
     jobs = [(tlc_mc_mailbox, (ctx,)),
-            (tlc_mc_lockfile, (ctx, "BytesSame", 3)),
-            (tlc_mc_lockfile, (ctx, "BytesMixed", 2 if quick else 3)),
-            (tlc_schedules, (ctx, True, 1, 1, False, 2)),
-            (tlc_schedules, (ctx, False, 1, 1, False, 0 if quick else 1)),
+            (tlc_mc_lockfile, (ctx, "ProcSingle", "BytesSame", 3)),
+            (tlc_mc_lockfile, (ctx, "ProcSingle", "BytesMixed", 2 if quick else 3)),
+            # process P = users u1 (terminal 0) + u2 (terminal 1); u3 (, u4) processes of their own
+            (tlc_mc_lockfile, (ctx, "ProcMulti", "BytesMulti", 3 if quick else 4)),
+            (tlc_schedules, (ctx, "same", 1, 1, False, 2)),
+            (tlc_schedules, (ctx, "mixed", 1, 1, False, 0 if quick else 1)),
             # existing file [6, 7]: counters wrap; holds that end by exception are followed by
             # further holds of the same and of the other participant
-            (tlc_schedules, (ctx, True, 2, 0, True, 1 if quick else 2))]
+            (tlc_schedules, (ctx, "same", 2, 0, True, 1 if quick else 2)),
+            # a process holding the locks of two terminals while another process wants one of them
+            (tlc_schedules, (ctx, "multi", 1, 1, True, 0, True))]
     if not quick:
-        jobs.append((tlc_schedules, (ctx, True, 2, 1, True, 0)))
-    with ThreadPoolExecutor(max_workers=7) as ex:
+        jobs += [(tlc_schedules, (ctx, "same", 2, 1, True, 0)),
+                 (tlc_schedules, (ctx, "multi", 1, 2, True, 1, True)),
+                 (tlc_schedules, (ctx, "multi", 1, 1, False, 0, True))]
+    with ThreadPoolExecutor(max_workers=8) as ex:
         futs = [ex.submit(f, *a) for f, a in jobs]
         # meanwhile: the in-process runs on the real code
         scs = scenarios(ctx)
@@ -469,7 +487,7 @@ def run(ctx):
             scheds += info
         else:
             ctx.extra[name] = dict(info, distinct=res.distinct, generated=res.generated)
-    if not quick and len(scheds) > 6000:
+    if not quick and len(scheds) > 12000:
         # two cycles on one terminal: keep every schedule with steps inside a creation window
         # and a deterministic stride of the others
         keep = [s for s in scheds if s["window"] > 0]
@@ -477,17 +495,19 @@ def run(ctx):
         scheds = keep[::max(1, len(keep) // 3000)] + rest[::max(1, len(rest) // 3000)]
     shutil.rmtree(LOCKDIR, ignore_errors=True)
     x_traces = replay_schedules(ctx, scheds)
-    same_idx = [i for i, s in enumerate(scheds) if s["same"]]
-    mixed_idx = [i for i, s in enumerate(scheds) if not s["same"]]
-    with ThreadPoolExecutor(max_workers=3) as ex:
+    by_layout = {}
+    for i, sc in enumerate(scheds):
+        by_layout.setdefault(sc["layout"], []).append(i)
+    with ThreadPoolExecutor(max_workers=4) as ex:
         f_in = ex.submit(validate_mailbox, ctx, [dict(ev=t["ev"]) for t in in_traces])
-        f_same = ex.submit(validate_lock, ctx, [x_traces[i] for i in same_idx], True)
-        f_mixed = ex.submit(validate_lock, ctx, [x_traces[i] for i in mixed_idx], False)
-        r_in, r_same, r_mixed = f_in.result(), f_same.result(), f_mixed.result()
+        f_x = {lay: ex.submit(validate_lock, ctx, [x_traces[i] for i in idx], lay)
+               for lay, idx in by_layout.items()}
+        r_in = f_in.result()
+        r_x = {lay: f.result() for lay, f in f_x.items()}
     for sc, tr, r in zip(scs, in_traces, r_in):
         judge_inproc(ctx, sc, tr, r)
-    for idx, rs in ((same_idx, r_same), (mixed_idx, r_mixed)):
-        for i, r in zip(idx, rs):
+    for lay, idx in by_layout.items():
+        for i, r in zip(idx, r_x[lay]):
             judge_cross(ctx, scheds[i], x_traces[i], r)
     good = [t for sc, t in zip(scs, in_traces) if overlap(t["ev"])]
     if good:
@@ -502,7 +522,9 @@ def run(ctx):
                 "turns on the real ParallelMailboxLock + LockFile, and by tasks sharing one "
                 "ParallelMailboxLock (+ random); non-trivial = an operation begins while another user's is "
                 "in progress, or two participants send through the lock file.  cross-process: every TLC-enumerated interleaving "
-                "of the system-call steps of 2 participants (same / different terminal, 1 cycle each, "
+                "of the system-call steps of 2 processes (same / different terminal, 1 cycle each, and a "
+                "process whose two tasks hold the locks of two terminals while a second process wants "
+                "one of them, "
                 "<= 1 failing lock attempt; on an existing file [6,7] 2 cycles each) x every hold ending by "
                 "return / exception / cancellation (bounded number of exceptional ends) x 0..2 messages "
                 "per hold; non-trivial = a lock attempt fails, a step falls into the creation window or "
@@ -521,11 +543,12 @@ def replay(ctx, case):
         print("TLC matched", r[0], "of", r[1])
         judge_inproc(ctx, sc, tr, r)
     else:
-        sc = dict(same=case["same"], window=case["window"], schedule=case["schedule"],
+        sc = dict(layout=case.get("layout", "same" if case["same"] else "mixed"),
+                  same=case["same"], window=case["window"], schedule=case["schedule"],
                   pre=case.get("pre", []))
         tr = replay_schedules(ctx, [sc])[0]
         sc["nmsgs"] = case["nmsgs"]
-        r = validate_lock(ctx, [tr], sc["same"])[0]
+        r = validate_lock(ctx, [tr], sc["layout"])[0]
         for e in tr["ev"]:
             print("  ", e)
         print("TLC matched", r[0], "of", r[1])
